@@ -34,7 +34,7 @@ func tagsFor(wt int) [][]byte {
 }
 
 func c05Work(c *mc.Ctx) {
-	enumCases(c, func(c *mc.Ctx, cfg ref.Cfg, it ref.Item, v ref.V, vs string, undoc string) {
+	enumItems(c, withRecursive(ref.Universe(c.Tier)), func(c *mc.Ctx, cfg ref.Cfg, it ref.Item, v ref.V, vs string, undoc string) {
 		pre := fmt.Sprintf("%s|%s|%s|%s", cfg, it.Pos, it.T, undoc)
 		c.Guard(pre, func() {
 			p := NewPlenc(cfg)
